@@ -411,7 +411,7 @@ func c09JudgeCfg(c *mon.Ctx, s *model.Schema, class string, sample bool, fullReg
 		c.Count("graphs whose AddType failed (skipped)", 1)
 		return
 	}
-	obs := lib.Safe(sch.Check)
+	obs := lib.CheckObs(sch)
 	if obs.Panic != "" {
 		c.Violate("check", c09Case{Spec: sp}, "no panic", obs.String(), "Check panicked on a type graph")
 		return
